@@ -5,7 +5,7 @@ V=$(cd "$(dirname "$0")/.." && pwd); cd "$V" || exit 2
 ids="$*"; [ -z "$ids" ] && ids=$(ls seeded | grep -v SUMMARY)
 out=seeded/SUMMARY.txt; : > $out.tmp; bad=0
 for id in $ids; do
-  prop=$(python3 -c "import json;print(json.load(open('seeded/$id/meta.json'))['breaks_property'])")
+  prop=$(python3 -c "import json;m=json.load(open('seeded/$id/meta.json'));print(m.get('check_with',m['breaks_property']))")
   res=$(tools/try_patch.sh seeded/$id/patch.diff $prop 2>&1)
   first=$(echo "$res" | head -1); viol=$(echo "$res" | grep -m1 "^VIOLATION" | sed 's/.*class=\([^ ]*\) site=\([^ ]*\).*ops=\([0-9]*\).*/\1 at \2, \3 ops/')
   echo "$id $first | $viol" | tee -a $out.tmp
